@@ -323,7 +323,7 @@ def tmpl_nan_variants(rng, allow_input=True):
     return prog
 
 
-def tmpl_stack0_data(rng, nan_share=0.2):
+def tmpl_stack0_data(rng, nan_share=0.2, area_share=0.25):
     """Stack 0 used as an ordinary data stack before (and while) it doubles as the input buffer: values are
     pushed onto it, it is selected, and then printed from / popped by multi-operand commands / compared in
     areas while it is still non-empty, finally running dry so that the next pops read input lines."""
@@ -345,6 +345,17 @@ def tmpl_stack0_data(rng, nan_share=0.2):
         prog += [(1, 1, rng.choice([1, 1, 2]), None)] * rng.randint(2, 6)
         if rng.random() < 0.3:
             prog += [(1, 2, 1, None)]
+        return prog
+    if rng.random() < area_share:
+        # own values go straight onto the selected stack 0, then commands whose `?`/`!` areas may pop more of them than
+        # there are: the exact point where own values end and real input starts is inside one area evaluation
+        own = rng.randint(1, 4)
+        prog = [(0, 1, rng.choice([0, 1, 2, 9]), None), (1, 1, 0, None)] * own + [(5, 1, 0, None)]
+        for _ in range(rng.randint(2, 6)):
+            prog += [(0, 1, rng.choice([0, 1, 2, 9]), None) for _ in range(rng.randint(0, 3))]
+            prog.append((rng.choice([0, 1, 1, 3, 4]), rng.choice([1, 1, 2, 3]), rng.choice([1, 3, 3, 0]),
+                         rand_area(rng, [4, 5, 13], p_none=0.0, p_more_q=0.6, p_more_b=0.6, p_slot_none=0.4, maxq=3, maxb=3)))
+        prog += [(1, 1, 1, None)] * rng.randint(0, 3)
         return prog
     if rng.random() < 0.35:
         # few own values on stack 0, then ONE multi-operand command that needs more than that (it crosses from
@@ -672,6 +683,24 @@ def tmpl_label_table(rng):
     return prog
 
 
+def tmpl_big_fraction_output(rng):
+    """Non-integers with very long terms but a small integer part (c + 1/b^e, c - 1/b^e, their negatives) are written
+    to stdout / stderr: a positive one must appear as the character of its floor, a negative one as decimal text."""
+    prog = []
+    for _ in range(rng.randint(1, 4)):
+        c = rng.choice([65, 66, 0x30, 0xac00, 0x1f600, 1, 0x10ffff, 0xd7ff, 0xe000, 0x7f, 0x80])
+        b, e = rng.choice([(2, rng.choice([32, 33, 64, 65, 90, 96, 128])), (16, rng.choice([8, 16, 17, 24])), (64, rng.choice([11, 15, 16])),
+                           (10, rng.randint(10, 40)), (7, rng.randint(12, 30)), (3, rng.randint(21, 60)), (6, rng.randint(13, 30))])
+        prog += [(0, 1, b, None)] * e + [(2, e, 3, None), (4, 1, 5, None)]          # 1/b^e on stack 3 (the product copy goes to 5)
+        if rng.random() < 0.3:
+            prog += [(3, 1, 5, None)]                                               # -1/b^e
+        prog += push_value(c) + [(1, 2, 3, None)]                                   # c +- 1/b^e
+        if rng.random() < 0.25:
+            prog += [(3, 1, 5, None)]                                               # negated: printed as text
+        prog += [(1, 1, rng.choice([1, 1, 2]), None)]
+    return prog
+
+
 def tmpl_first_command_source(rng):
     """The very FIRST command of the program (location 0) becomes a jump SOURCE: it registers one label on its first
     evaluation (empty stack), is re-entered through that label later, takes its other branch and jumps forward; a ♡
@@ -938,6 +967,7 @@ INPUT_TEMPLATES = {
     'pending_return': lambda rng, ai: tmpl_pending_return(rng),
     'label_table': lambda rng, ai: tmpl_label_table(rng),
     'two_labels': lambda rng, ai: tmpl_two_labels(rng),
+    'big_fraction_output': lambda rng, ai: tmpl_big_fraction_output(rng),
     'first_command_source': lambda rng, ai: tmpl_first_command_source(rng),
     'abandoned_return': lambda rng, ai: tmpl_abandoned_return(rng),
     'stack0_data': lambda rng, ai: tmpl_stack0_data(rng),
